@@ -147,6 +147,21 @@ def w_roundtrip(ctx: core.Ctx, arg):
                         {'elements': values, 'root': root, 'scope_string': scope, 'parsed_back': dict(zip(ELEMENTS + ('root',), _attrs(back)))})
             continue
         ctx.count('roundtrip.identical')
+        if case % 3 == 0:  # what the application does with one parse result must not influence the next parse of the same string
+            expected = _attrs(back)
+            for e in ELEMENTS:
+                setattr(back, e, None if getattr(back, e) is not None and rng.random() < 0.5 else 'changed_by_application')
+            back._root = 'changed.root'
+            try:
+                again = SdcLocation.from_scope_string(scope)
+                ctx.count('roundtrip.reparsed_after_mutation')
+                if _attrs(again) != expected:
+                    ctx.witness('roundtrip.second_parse_differs', 'parsing the same scope string again, after the application modified the first result, '
+                                'gives a different location', {'elements': values, 'root': root, 'scope_string': scope,
+                                                               'second_parse': dict(zip(ELEMENTS + ('root',), _attrs(again)))})
+            except Exception as ex:  # noqa: BLE001
+                ctx.witness(f'roundtrip.raises.{rkind}', f'second from_scope_string raised {type(ex).__name__}: {ex}', {'scope_string': scope})
+            back = SdcLocation.from_scope_string(scope)
         if not (back == loc) or (back != loc):
             ctx.witness('roundtrip.eq_disagrees', 'all seven attributes are identical but SdcLocation.__eq__/__ne__ say the locations differ',
                         {'elements': values, 'root': root})
@@ -195,11 +210,28 @@ def w_contain(ctx: core.Ctx, arg):
         else:
             values, mask = _random_values(rng, pool, rng.choice([63, rng.randrange(1, 64), rng.randrange(1, 64)]))
         loc = _mk_loc(values)
+        # how the associated location gets into the MDIB: a new state (set_location), or the associated state is updated in
+        # place through a transaction / the entity interface (LocationContextStateContainer.update_from_sdc_location)
+        how = 'set_location' if case % 40 == 0 else rng.choice(['set_location', 'update_state', 'update_state', 'update_entity'])
         try:
-            mdib.xtra.set_location(loc)
+            if how == 'set_location':
+                mdib.xtra.set_location(loc)
+            else:
+                cur = [st for st in mdib.context_states.objects
+                       if st.NODETYPE.localname == 'LocationContextState' and st.ContextAssociation == 'Assoc']
+                if how == 'update_state':
+                    with mdib.context_state_transaction() as mgr:
+                        st = mgr.get_context_state(cur[0].Handle)
+                        st.update_from_sdc_location(loc)
+                else:
+                    ent = mdib.entities.by_handle(cur[0].DescriptorHandle)
+                    ent.states[cur[0].Handle].update_from_sdc_location(loc)
+                    with mdib.context_state_transaction() as mgr:
+                        mgr.write_entity(ent, [cur[0].Handle])
+            ctx.count(f'contain.published_via.{how}')
             scopes = mk_scopes(mdib)
         except Exception as ex:  # noqa: BLE001
-            ctx.witness('publish.raises', f'set_location / mk_scopes raised {type(ex).__name__}: {ex}', {'elements': values})
+            ctx.witness('publish.raises', f'{how} / mk_scopes raised {type(ex).__name__}: {ex}', {'elements': values, 'how': how})
             mdib = None
             continue
         loc_scopes = [s for s in scopes.text if s.lower().startswith('sdc.ctxt.loc:')]
@@ -209,7 +241,7 @@ def w_contain(ctx: core.Ctx, arg):
             ctx.sample({'kind': 'published location', 'elements': values, 'published_scopes': list(scopes.text)})
         if len(loc_scopes) != 1:
             ctx.witness('publish.location_scope_count', f'{len(loc_scopes)} sdc.ctxt.loc scopes published for one associated location',
-                        {'elements': values, 'scopes': list(scopes.text)})
+                        {'elements': values, 'scopes': list(scopes.text), 'how': how})
             if not loc_scopes:
                 continue
         scope_text = loc_scopes[0]
@@ -222,7 +254,7 @@ def w_contain(ctx: core.Ctx, arg):
             if res is False:
                 key = 'contain.not_inside_self' if gmask & mask == mask else 'contain.not_inside_generalisation'
                 ctx.witness(key, 'published location scope is not inside ' + ('its own location' if gmask & mask == mask else 'an enclosing location'),
-                            {'elements': values, 'scope': scope_text, 'filter': dict(zip(ELEMENTS, _attrs(g)))})
+                            {'elements': values, 'scope': scope_text, 'filter': dict(zip(ELEMENTS, _attrs(g))), 'how': how})
                 break
         # (2) inside no location that differs in a specified element
         for i, e in enumerate(ELEMENTS):
@@ -240,7 +272,7 @@ def w_contain(ctx: core.Ctx, arg):
                 res = _inside(ctx, other, svc, scope_text)
                 if res is True:
                     ctx.witness(f'contain.inside_{kind}', f'published location scope is reported inside a location whose "{e}" is different',
-                                {'elements': values, 'scope': scope_text, 'filter': dict(zip(ELEMENTS, _attrs(other)))})
+                                {'elements': values, 'scope': scope_text, 'filter': dict(zip(ELEMENTS, _attrs(other))), 'how': how})
                     break
         # (3) a filter location with a different root (the fallback instance identifier root is part of the location)
         for root in ('other.root', DEFAULT_ROOT + 'x', DEFAULT_ROOT.upper(), 'sdc.ctxt.loc'):
